@@ -523,9 +523,53 @@ class C03(Check):
                         ["keeps_answering_subsequent_requests"], common._jsonable(p), None)
         return None
 
+    def persistent_connection(self):
+        """two requests on ONE connection: the handler of the first asks for a persistent connection (Connection: keep-alive
+        + Content-Length - http.server then keeps the connection open); the second is answered like any first request"""
+        deadline = 2.0
+        seconds = [("handle raises", dict(act=None, exc=("RuntimeError", 0)), None, 500),
+                   ("prepare_context raises", dict(prep_raises=True, act=(200, None, None)), None, 500),
+                   ("no handler accepts", dict(can=False), None, 404), ("bad path", dict(act=(200, None, None)), "c/nolead", 400),
+                   ("bare 403", dict(act=(403, None, None)), None, 403), ("ordinary", dict(act=(200, H(1), (b"second", False))), None, 200)]
+        for name, kw, path, want in seconds:
+            c1 = self.mk("GET", [handler(act=(200, [("Connection", "keep-alive"), ("Content-Length", "5")], (b"first", False)))])
+            c2 = self.mk("GET", [handler(**kw)], path=path)
+            for c in (c1, c2):
+                if c["path"].startswith("/"):
+                    SCRIPTS[c["path"]] = c
+            sk = socket.socket(socket.AF_INET6, socket.SOCK_STREAM)
+            sk.settimeout(deadline)
+            r1 = r2 = b""
+            try:
+                sk.connect(("::1", server_port()))
+                sk.sendall(request_bytes(c1))
+                while b"\r\n\r\n" not in r1 or len(r1.partition(b"\r\n\r\n")[2]) < 5:
+                    d = sk.recv(65536)
+                    if not d:
+                        break
+                    r1 += d
+                sk.sendall(request_bytes(c2))
+                while True:
+                    d = sk.recv(65536)
+                    if not d:
+                        break
+                    r2 += d
+            except OSError as ex:
+                r2 += b"<%s>" % type(ex).__name__.encode()
+            finally:
+                sk.close()
+                SCRIPTS.pop(c1["path"], None)
+                SCRIPTS.pop(c2["path"], None)
+            p1, p2 = canonical(r1), canonical(r2)
+            if not (p1[0] == 1 and p1[1] == 200 and p1[4] == b"first" and p2[0] == 1 and p2[1] == want):
+                return ({"_extra": True, "probe": "two requests on one connection; the first handler returns Connection: keep-alive + "
+                                                  "Content-Length, the second request: " + name, "expected_status_of_second": want,
+                         "first": common._jsonable(p1[:2]), "second": common._jsonable(p2)}, ["well_formed", "status"], None, None)
+        return None
+
     def gen(self, tier, rng):
         self.tier = tier
-        self._early_fail = self.survives_faulty_handlers()
+        self._early_fail = self.survives_faulty_handlers() or self.persistent_connection()
         if self._early_fail is not None:
             return                  # the server has stopped serving: report that, do not time out case by case
         yield from self.gen_cases(tier, rng)
